@@ -245,6 +245,9 @@ class Radio:
             if norm(sh).key() == norm(reg).key():
                 return True, ""
             return False, "shadow %r vs register %r not comparable" % (sh, reg)
+        facts = st.extra.get("bitfacts")
+        if facts:
+            a, b = subst_bits(a, facts), subst_bits(b, facts)
         ok = len(a) == len(b) and all(term_eq(x, y) for x, y in zip(a, b))
         return ok, "shadow %s != register %s" % (fmt_bits(a), fmt_bits(b))
 
